@@ -23,7 +23,7 @@ RULE = ("per case one generated GFA with sequences (links in all four orientatio
         "flipped / one node replaced / a link used from the wrong end) and random step sequences; "
         "non-trivial = path of >= 2 steps; distinct by (graph signature, path)")
 ASSUMPTIONS = ["node ids in paths exist in the graph (unknown ids are outside the quantifier)",
-               "upper-case ACGT sequences", "the step-pair oracle reads the generator's link list, "
+               "sequence alphabet ACGTN in both cases (soft-masked bases)", "the step-pair oracle reads the generator's link list, "
                "and is cross-checked against ref.gfa's reading of the written file"]
 
 
@@ -35,7 +35,7 @@ def plan(tier):
 def required(tier):
     cells = [f"cell:{a}{b}:{r}" for a in "><" for b in "><" for r in ("accepted", "rejected")]
     return ["post:path_exists", "post:extract_path", "cli_single", "cli_file", "cli_fasta",
-            "cli_gz", "reversal_pairs", "selflink_walk"] + cells
+            "cli_gz", "reversal_pairs", "selflink_walk", "mixed_case_graphs"] + cells
 
 
 # -- contracts --------------------------------------------------------------------------------
@@ -150,6 +150,10 @@ def run_case(ctx, rng, index, casedir):
     viol = []
     g = rgfa.gen_rgfa(rng, size=rng.choice(["small", "small", "medium"]))
     generalize(g, rng)
+    if rng.random() < 0.3:  # soft-masked (lower-case) and ambiguous (N) bases are valid sequence characters
+        for n in g.nodes.values():
+            n.seq = "".join(c.lower() if rng.random() < 0.4 else (c if rng.random() < 0.95 else "N") for c in n.seq)
+        sit["mixed_case_graphs"] += 1
     gz = rng.random() < 0.3
     gpath = os.path.join(casedir, "g.gfa" + (".gz" if gz else ""))
     g.write(gpath, rng=rng, shuffle=rng.random() < 0.5, interleave=rng.random() < 0.3)
